@@ -23,12 +23,18 @@ OUTSIDE = ["more than 2 initial ports / 2 (thorough 3) notifications", "more tha
            "parts of two different requests interleaved with each other (the code documents that it does not support this; see known findings)"]
 ASSUMPTIONS = ["the OpenFlow nexus is a stub that records events; handshake already finished (default handlers installed)"]
 
-NAMES = ['eth-a', 'eth-b', 'eth-c', 'eth-d', 'eth-e']
+NAMES = ['eth-a', 'eth-b', 'eth-c', 'eth-d', 'eth-e', 'eth-f', 'eth-g']
 
 
 class Nexus:
+  halt_raw = None          # when set: a callable deciding whether a nexus-level listener halts this raw per-part statistics event
   def __init__(self): self.events = []
-  def raiseEventNoErrors(self, ev, *a, **kw): self.events.append((ev, a)); return None
+  def raiseEventNoErrors(self, ev, *a, **kw):
+    self.events.append((ev, a))
+    if self.halt_raw is not None and getattr(ev, '__name__', '') == 'RawStatsReply' and self.halt_raw():
+      class Halted: halt = True
+      return Halted()
+    return None
   def raiseEvent(self, ev, *a, **kw): self.events.append((ev, a)); return None
   def _connect(self, con): pass
   def _disconnect(self, dpid): pass
@@ -188,6 +194,13 @@ def h_stats(ctx, kinds, parts, order, ctag=''):
       def check(s, name, cond): real.check(ctag + name, cond)
       def __getattr__(s, n): return getattr(real, n)
     ctx = _T()
+  # an application listening on the nexus may halt the *raw* per-part event (RawStatsReply) of any part (solver-chosen per part): that only
+  # stops the raw event from being raised again on the connection - the aggregated events still see every part
+  nraw = [0]
+  def halt_raw():
+    nraw[0] += 1
+    return bool(ctx.bool('halt_raw%d' % nraw[0])) if nraw[0] <= 3 else False
+  con.ofnexus.halt_raw = halt_raw
   got = []
   for name in ('FlowStatsReceived', 'TableStatsReceived', 'PortStatsReceived', 'QueueStatsReceived', 'SwitchDescReceived', 'AggregateFlowStatsReceived'):
     con.addListenerByName(name, lambda e, name=name: got.append((name, e)))
